@@ -278,7 +278,7 @@ func runC11(s *sut.SUT, cs c11Case) (rule, detail string, nontrivial bool) {
 	sctx, cancel := context.WithCancel(ctx)
 	done := make(chan error, 1)
 	var sendAck, sendNack, sendNack0 func(ids []uuid.UUID)
-	var sendMixed func(zero, extend []uuid.UUID)
+	var sendMixed func(zero, extend []uuid.UUID, zeroFirst bool)
 	strs := func(ids []uuid.UUID) []string {
 		out := make([]string, len(ids))
 		for i, id := range ids {
@@ -328,17 +328,23 @@ func runC11(s *sut.SUT, cs c11Case) (rule, detail string, nontrivial bool) {
 			_ = st.Send(&pubsubpb.StreamingPullRequest{ModifyDeadlineAckIds: strs(ids), ModifyDeadlineSeconds: make([]int32, len(ids))})
 		}
 		sendNack = sendNack0
-		sendMixed = func(zero, extend []uuid.UUID) {
+		sendMixed = func(zero, extend []uuid.UUID, zeroFirst bool) {
 			req := &pubsubpb.StreamingPullRequest{}
-			// interleave: the ids to nack (deadline 0) and the ids to extend (deadline 30) in one request
-			for i := 0; i < len(zero) || i < len(extend); i++ {
-				if i < len(extend) {
-					req.ModifyDeadlineAckIds = append(req.ModifyDeadlineAckIds, extend[i].String())
-					req.ModifyDeadlineSeconds = append(req.ModifyDeadlineSeconds, 30)
+			// interleave: the ids to nack (deadline 0) and the ids to extend (deadline 30) in one request,
+			// starting with either kind (the handler splits the list into runs of equal deadlines)
+			add := func(ids []uuid.UUID, i int, secs int32) {
+				if i < len(ids) {
+					req.ModifyDeadlineAckIds = append(req.ModifyDeadlineAckIds, ids[i].String())
+					req.ModifyDeadlineSeconds = append(req.ModifyDeadlineSeconds, secs)
 				}
-				if i < len(zero) {
-					req.ModifyDeadlineAckIds = append(req.ModifyDeadlineAckIds, zero[i].String())
-					req.ModifyDeadlineSeconds = append(req.ModifyDeadlineSeconds, 0)
+			}
+			for i := 0; i < len(zero) || i < len(extend); i++ {
+				if zeroFirst {
+					add(zero, i, 0)
+					add(extend, i, 30)
+				} else {
+					add(extend, i, 30)
+					add(zero, i, 0)
 				}
 			}
 			_ = st.Send(req)
@@ -558,7 +564,7 @@ func runC11(s *sut.SUT, cs c11Case) (rule, detail string, nontrivial bool) {
 						}
 					}
 					conn.mu.Unlock()
-					sendMixed(ids, ext)
+					sendMixed(ids, ext, st.Z%2 == 1)
 					freed["mixed"] = true
 				} else {
 					sendNack0(ids)
